@@ -853,6 +853,17 @@ def part_vfw(ctx, tmp):
 
 SYSCALLS = 'openat,open,creat,write,pwrite64,writev,pwritev,ftruncate,truncate,rename,renameat,renameat2,unlink,unlinkat,link,linkat'
 LINE = re.compile(r'^(\d+)\s+(\w+)\((.*)\)\s+=\s+(-?\d+|\?)(.*)$')
+_STRACE_FAST = None
+
+
+def strace_fast():
+    """['--seccomp-bpf'] when this strace accepts it (only the traced system calls stop the child: the Python
+    start-up of every traced child is 2x faster), else []."""
+    global _STRACE_FAST
+    if _STRACE_FAST is None:
+        r = subprocess.run(['strace', '-f', '--seccomp-bpf', '-o', '/dev/null', '-e', 'trace=rename', 'true'], capture_output=True, text=True)
+        _STRACE_FAST = ['--seccomp-bpf'] if r.returncode == 0 and not r.stderr.strip() else []
+    return _STRACE_FAST
 
 
 def run_child(d, direct, dt, shape, seed, inject=None, trace=None, timeout=180):
@@ -860,7 +871,7 @@ def run_child(d, direct, dt, shape, seed, inject=None, trace=None, timeout=180):
     tmpn, finaln = base + '.writing.npy', base + '.npy'
     cmd = [sys.executable, CHILD, d, '1' if direct else '0', dt, ','.join(str(s) for s in shape), str(seed)]
     if trace:
-        pre = ['strace', '-f', '-o', trace, '-e', 'trace=' + SYSCALLS, '-P', tmpn, '-P', finaln]
+        pre = ['strace', '-f'] + ([] if inject else strace_fast()) + ['-o', trace, '-e', 'trace=' + SYSCALLS, '-P', tmpn, '-P', finaln]
         if inject:
             pre += ['-e', 'inject=' + inject]
         cmd = pre + cmd
@@ -1100,6 +1111,214 @@ def part_short_write(ctx, tmp):
 
 
 # ------------------------------------------------------------------------------------------------
+# part 7: puts under a file-size limit at every byte offset (short writes on the plain and the direct path)
+
+LIMIT_CONFIGS_QUICK = [(False, 'u1', (3, 4)), (False, '<f8', (40, 30)), (True, 'u1', (9000,))]
+LIMIT_CONFIGS_MORE = [(False, '<c8', (2, 3, 2)), (False, '<f8', (300, 40)), (False, 'u1', (70000,)), (True, 'u1', (3, 4)),
+                      (True, '<c8', (40, 30)), (False, '<f4', (5,))]
+
+
+def limit_plan(ctx, direct, S, hdr, every):
+    """Limits to try for a chunk file of S bytes with an hdr-byte header: every byte offset when `every`, else
+    every offset around the places where behaviour changes plus a random sample strictly inside header and body."""
+    pad = -S % 4096 if direct else 0
+    if every:
+        lims = set(range(0, S + 2))
+    else:
+        lims = {0, 1, 2, hdr // 2, hdr - 1, hdr, hdr + 1, S - 2, S - 1, S, S + 1}
+        for b in (512, 4096, 8192, 65536, 131072):
+            lims |= {b - 1, b, b + 1}
+        lims |= {ctx.rng.randrange(1, hdr) for _ in range(6)}
+        lims |= {ctx.rng.randrange(hdr + 1, S) for _ in range(14)}
+    if direct:
+        lims |= {k for k in range(0, S + pad + 1, 512)} | {S + pad, S + pad + 1}
+    out = []
+    for L in sorted(l for l in lims if 0 <= l <= S + pad + 1):
+        olds = (0, 1) if (every or ctx.tier == 'thorough' or L in (hdr - 1, hdr + 1, S - 1)) else (ctx.rng.randrange(2),)
+        out += [[L, o] for o in olds]
+    return out
+
+
+def parse_limit_trace(path, tmpn, finaln, sep):
+    """strace output of a limits sweep -> {i: [(kind, arg, ret, errno name)]} for the calls between the markers."""
+    import errno as _errno
+    runs, cur = {}, None
+    for line in open(path):
+        m = LINE.match(line.rstrip())
+        if not m:
+            if 'unfinished' in line or 'resumed' in line:
+                raise RuntimeError('interleaved strace line: ' + line[:100])
+            continue
+        _, sc, args, ret, rest = m.groups()
+        if sc == 'truncate' and sep in args:
+            n = int(args.split(', ')[-1])
+            if n % 2 == 0:
+                cur = n // 2
+                runs[cur] = []
+            else:
+                cur = None
+            continue
+        if cur is None:
+            continue
+        r = -1 if ret == '?' else int(ret)
+        err = rest.split()[0] if r < 0 and rest.split() else None
+        if sc in ('openat', 'open', 'creat'):
+            kind = 0 if (tmpn in args and 'O_CREAT' in args and 'O_TRUNC' in args) else -1
+            runs[cur].append((kind, 0, r, err))
+        elif sc in ('write', 'pwrite64'):
+            runs[cur].append((1, int(args.split(', ')[-1 if sc == 'write' else -2]), r, err))
+        elif sc in ('ftruncate',):
+            runs[cur].append((2, int(args.split(', ')[-1]), r, err))
+        elif sc.startswith('rename'):
+            names = re.findall(r'"([^"]*)"', args)
+            runs[cur].append((3 if names[:2] == [tmpn, finaln] else -1, 0, r, err))
+        else:
+            runs[cur].append((-1, 0, r, err))
+    return runs
+
+
+def oserror_index(name):
+    import errno as _errno
+    return exn_index(OSError(getattr(_errno, name, _errno.EIO), 'x'))
+
+
+def part_put_limit(ctx, tmp, only=None):
+    from katdal.chunkstore import npy_header_and_body
+    import json
+    if shutil.which('strace') is None:
+        ctx.count('strace_unavailable')
+    configs = list(LIMIT_CONFIGS_QUICK) + (LIMIT_CONFIGS_MORE if ctx.tier == 'thorough' else [])
+    if only is not None:
+        configs = [tuple(only[:3])]
+    for ci, (direct, dt, shape) in enumerate(configs):
+        shape = tuple(shape)
+        d = '%s/lim%d' % (tmp, ci)
+        os.makedirs(d + '/a', exist_ok=True)
+        new, old = make_chunk(dt, shape, 2), make_chunk(dt, shape, 1)
+        hdr, body = npy_header_and_body(new)
+        new_bytes, hlen = bytes(hdr) + body.tobytes(), len(bytes(hdr))
+        S = len(new_bytes)
+        base = os.path.join(d, 'a', '_'.join('%05d' % 0 for _ in shape))
+        tmpn, finaln, sep = base + '.writing.npy', base + '.npy', d + '/sep'
+        open(sep, 'wb').close()
+        if only is not None:
+            plan = [[None, 0], [only[3], 1 if only[4] else 0]]
+        else:
+            plan = [[None, 0]] + limit_plan(ctx, direct, S, hlen, every=(S <= 200 or (ctx.tier == 'thorough' and S <= 20000 and not direct)))
+        trace = d + '/trace.txt'
+        cmd = [sys.executable, CHILD, d, '1' if direct else '0', dt, ','.join(str(x) for x in shape), '2']
+        use_strace = shutil.which('strace') is not None
+        if use_strace:
+            cmd = ['strace', '-f'] + strace_fast() + ['-o', trace, '-e', 'trace=' + SYSCALLS, '-P', tmpn, '-P', finaln, '-P', sep] + cmd
+        r = subprocess.run(cmd, input=json.dumps(dict(limits=plan, sep=sep)), capture_output=True, text=True,
+                           env=dict(child_env(), C08_MODE='limits'), timeout=600)
+        obs = [json.loads(l[6:]) for l in r.stdout.splitlines() if l.startswith('LIMIT ')]
+        after = [json.loads(l[6:]) for l in r.stdout.splitlines() if l.startswith('AFTER ')]
+        cfg = dict(part='put_limit', direct_write=direct, dtype=dt, shape=list(shape))
+        if len(obs) != len(plan) or not after:
+            if direct and obs and obs[0]['rep'][1] != 'builtins.NoneType':
+                ctx.count('direct_write_unsupported')
+                continue
+            ctx.disagree('part=put_limit;symptom=child_failed', cfg, r.stderr[-400:], 'one line per put', 'sweep child failed', kind='tie')
+            continue
+        if obs[0]['rep'][1] != 'builtins.NoneType' or obs[0]['final'] != ['new']:
+            if direct:
+                ctx.count('direct_write_unsupported')
+                continue
+            ctx.disagree('part=put_limit;symptom=healthy_put_failed', cfg, obs[0], 'returned None, final new', 'a healthy put failed', kind='tie')
+            continue
+        runs = parse_limit_trace(trace, tmpn, finaln, sep) if use_strace else {}
+        # the byte strings the code hands to write(2) when nothing goes wrong, from the unlimited put
+        sizes, trunc = None, None
+        if use_strace:
+            h = runs.get(0, [])
+            sizes = [c[1] for c in h if c[0] == 1]
+            trunc = next((c[1] for c in h if c[0] == 2), None)
+            if any(c[2] < 0 or (c[0] == 1 and c[2] != c[1]) or c[0] < 0 for c in h) or sum(sizes) < S:
+                ctx.disagree('part=put_limit;direct=%s;symptom=healthy_trace' % direct, cfg, h, 'complete writes', 'system calls of a healthy put not understood', kind='tie')
+                sizes = None
+        padded = new_bytes + b'\0' * ((sum(sizes) - S) if sizes else 0)
+        writes, pos = [], 0
+        for sz in sizes or []:
+            writes.append(list(padded[pos:pos + sz]))
+            pos += sz
+        if after[0]['rep'] != 'None' or after[0]['reader'] not in ('new', 'array'):
+            ctx.disagree('part=put_limit;direct=%s;symptom=later_put_failed' % direct, cfg, after[0], 'None / new',
+                         'a put after the limit was lifted fails or is not visible')
+        todo, cases = [], []
+        for o in obs[1:]:
+            L, with_old, i = o['limit'], bool(o['old']), o['i']
+            where = ('start' if L == 0 else 'header' if L < hlen else 'header_end' if L == hlen else 'body' if L < S
+                     else 'padding' if L < len(padded) else 'enough')
+            case = dict(cfg, limit=L, previous_chunk=with_old, where=where, size=S)
+            rep = o['rep']
+            success = rep[0] == 'returned' and rep[1] == 'builtins.NoneType'
+            state = o['final'][0]
+            sig = 'part=put_limit;direct=%s;where=%s;previous=%s;symptom=' % (direct, where, 'good_chunk' if with_old else 'absent')
+            ctx.traces_validated += 1
+            # ---- the property, on the observation alone
+            allowed = {'old' if with_old else 'absent', 'new'}
+            if state not in allowed:
+                ctx.disagree(sig + 'final_%s' % ('damaged' if state == 'other' else state), case, o['final'], sorted(allowed),
+                             'after a put that hit a file-size limit the final name holds neither the previous nor the complete new chunk')
+            if success and state != 'new':
+                ctx.disagree(sig + 'failure_swallowed', case, rep, 'an error object',
+                             'put_chunk_noraise reported success although the complete chunk is not in place')
+            if not success and rep[0] == 'raised':
+                ctx.disagree(sig + 'raised_not_returned', case, rep, 'a returned ChunkStoreError', 'put_chunk_noraise raised')
+            want = {'new': ('new', 'array'), 'old': ('old', 'array'), 'absent': ('raise:katdal.chunkstore.ChunkNotFound',)}.get(state)
+            if want is not None and o['reader'] not in want:
+                ctx.disagree(sig + 'reader_%s' % o['reader'].split('.')[-1], case, o['reader'], want,
+                             'a fresh reader does not see the previous state or the complete new chunk')
+            if state == 'other' and not o['reader'].startswith('raise:'):
+                ctx.disagree(sig + 'damaged_chunk_read_as_data', case, o['reader'], 'an error', 'a damaged chunk file was returned as data')
+            extra = [n for n in o['listing'] if n not in (os.path.basename(tmpn), os.path.basename(finaln))]
+            if extra:
+                ctx.disagree(sig + 'stray_files', case, extra, [], 'files other than the temp and final names were left behind', kind='tie')
+            ctx.note_case(('putL', direct, dt, shape, L, with_old), nontrivial=L < len(padded),
+                          sample=dict(case, report=rep, final=o['final'], tmp=o['tmp'], reader=o['reader']) if where in ('header', 'body') and i % 7 == 0 else None)
+            ctx.count('put_limit:' + where)
+            # ---- the tie: the model run on the answers the kernel actually gave
+            if not (use_strace and sizes and ctx.model_ok):
+                continue
+            calls = runs.get(i, [])
+            evs = [[2, oserror_index(c[3] or 'EIO')] if c[2] < 0 else [3, c[2]] if (c[0] == 1 and c[2] < c[1]) else [0] for c in calls]
+            todo.append([81, [11, codes(base), writes, [trunc] if trunc is not None else [], 1, evs, [list(_old_bytes(old))] if with_old else []]])
+            cases.append((case, sig, o, calls))
+        outs = ctx.model(todo) if todo else []
+        for (case, sig, o, calls), m in zip(cases, outs):
+            rep = o['rep']
+            qn = rep[1]
+            qi = [q for _, q in EXN].index(qn) if qn in [q for _, q in EXN] else -1
+            obs_rep = [0] if qn == 'builtins.NoneType' else [1 if rep[0] == 'returned' else 2, qi]
+            old_b = _old_bytes(old)
+
+            def st(entry):
+                if not entry:
+                    return ['absent']
+                b = bytes(entry[0])
+                return ['new'] if b == new_bytes else ['old'] if b == old_b else ['other', len(b), new_bytes[:len(b)] == b]
+            mobs = [m[0], st(m[1]), st(m[2])]
+            if [obs_rep, o['final'], o['tmp']] != mobs:
+                ctx.disagree(sig + 'state;tie', case, [obs_rep, o['final'], o['tmp']], mobs,
+                             'report / final file / temp file after the limited put differ from the model run on the same system-call results', kind='tie')
+            mcalls = [tuple(c) for c in m[3]]
+            tcalls = [(c[0], c[1]) for c in calls]
+            tail = calls[len(mcalls):]
+            if tcalls[:len(mcalls)] != mcalls or any(c[2] >= 0 or c[0] != 1 for c in tail):
+                ctx.disagree(sig + 'calls;tie', case, tcalls, mcalls,
+                             'system calls issued by the limited put differ from the calls of the model run '
+                             '(beyond them only failing flush attempts are accepted)', kind='tie')
+        shutil.rmtree(d, ignore_errors=True)
+
+
+def _old_bytes(old):
+    from katdal.chunkstore import npy_header_and_body
+    h, b = npy_header_and_body(old)
+    return bytes(h) + b.tobytes()
+
+
+# ------------------------------------------------------------------------------------------------
 
 def run_witness(ctx, w, tmp):
     """Known-finding witnesses, through the same comparisons."""
@@ -1225,6 +1444,7 @@ def run(ctx):
         part_npy_store_faults(ctx, tmp)
         part_vfw(ctx, tmp)
         part_put(ctx, tmp)
+        part_put_limit(ctx, tmp)
         ctx.exhaustive = False
         ctx.extra['exhaustive_parts'] = ['exception enum: names, bases, isinstance matrix',
                                          'standard_errors + getters: 4 maps x every class of the enum']
@@ -1241,6 +1461,7 @@ def search_without_model(ctx, tmp):
     store = NpyFileChunkStore(d)
     part_mismatch(ctx, tmp)
     part_vfw(ctx, tmp)
+    part_put_limit(ctx, tmp)
     for dt, shape in GEOMS_QUICK:
         x = make_chunk(dt, shape, 3)
         if x.size == 0:
@@ -1284,6 +1505,8 @@ def replay(ctx, doc):
             part_vfw(ctx, tmp)
         elif part in ('put_trace', 'put_fault'):
             part_put(ctx, tmp)
+        elif part == 'put_limit':
+            part_put_limit(ctx, tmp, only=(case['direct_write'], case['dtype'], case['shape'], case['limit'], case['previous_chunk']))
         elif part == 'npy_corruption':
             part_npy_truncation(ctx, tmp)
         else:
